@@ -12,7 +12,7 @@ from gen import ast as A
 from vlib import driver_run, esc_field, harness_run, sexp_parse, sexp_str
 from gen.programs import INT, BOOL, STR, FLOAT, VOID, tup, fn, iter_of, arr, cell, multi
 
-THM_MODULES = ["SslModel.Thm.C13", "SslModel.Thm.C01StD"]
+THM_MODULES = ["SslModel.Thm.C13", "SslModel.Thm.C13Hist", "SslModel.Thm.C01StD"]
 TRANSLATE_PARTS = ["scalar"]
 
 I = lambda n: ("i", n)
